@@ -545,3 +545,12 @@ func (s *Space) Alphabet(d *D) string {
 	}
 	return sb.String()
 }
+
+// PrefixLive reports whether some accepted word starts with prefix.
+func (s *Space) PrefixLive(d *D, prefix string) bool {
+	st := 0
+	for _, r := range prefix {
+		st = d.Trans[st][s.classOf(r)]
+	}
+	return d.live()[st]
+}
